@@ -250,8 +250,8 @@ impl Property for C19 {
     }
     fn cases(&self, tier: Tier) -> usize {
         match tier {
-            Tier::Quick => 20_000,
-            Tier::Thorough => 500_000,
+            Tier::Quick => 80_000,
+            Tier::Thorough => 1_000_000,
         }
     }
     fn tape_max(&self) -> usize {
